@@ -42,6 +42,19 @@ def run(tier, seed, which="C12"):
         groups.append(dict(gid="dup%d" % i, rel="duprows", prop="C12",
                            members=[dict(names=gen.names(rng, n), seqs=seqs, type=ty, threads=rng.choice([1, 4]), dump_in=True)],
                            key=json.dumps([seqs, ty]), nontrivial=len(set(seqs)) < len(seqs) and len(set(seqs)) > 1))
+    # duplicated sequences of 500 residues and more (the parallel Hirschberg controller aligns the copies), among relatives
+    for j, L in enumerate([501, 640, 777] if tier == "quick" else [500, 501, 502, 640, 777, 999, 1000, 1001, 1503, 2001]):
+        for kind in (("dna", "protein") if tier != "quick" else (("dna",) if j != 1 else ("protein",))):
+            alpha = gen.DNA if kind == "dna" else gen.AA
+            n = rng.randint(4, 6)
+            base = gen.family(rng, n - 2, L, alpha, sub=0.15, indel=0.02)
+            if kind == "protein":
+                base = [x + "LKEF" for x in base]
+            seqs = base + [base[0], base[0]] if j % 2 else base + [base[0], base[1]]
+            rng.shuffle(seqs)
+            groups.append(dict(gid="long%d%s" % (L, kind[0]), rel="duprows", prop="C12",
+                               members=[dict(names=gen.names(rng, len(seqs)), seqs=seqs, type=5, threads=rng.choice([2, 4]), dump_in=True)],
+                               key=json.dumps([seqs, 5]), nontrivial=True))
     # long duplicated sequences with a partner at a large, exactly known distance: d over three letters, the partner is d with
     # k positions replaced by a fourth letter that does not occur in d (every such position costs exactly one edit)
     for j, (L, k) in enumerate([(300, 256), (300, 255), (600, 512), (280, 256)] if tier == "quick" else
